@@ -104,4 +104,11 @@ PROPS = {
         "trusted_base": ["JSON re-marshalling of the task list (message -> FSM -> operation -> airgapped) is Go's; it is on the exercised path", "baked payloads: see C17"],
         "assumptions": ["'the proposal' is its JSON form on the board (encoding/json replaces invalid UTF-8 in names before anyone sees it)"],
     },
+    "C12": {
+        "props": "Props/C12.v", "scenarios": ["c12"],
+        "rule": "real airgapped machines (n=3, t=2) in a real cluster, operations answered through ProcessOperation (logged, result file written and read back): an uninterrupted twin and a second twin from the same mnemonics (seed determines keys, commitments, shares), then for the victim participant [thorough: every participant]: stop/reopen/replay after each of the four DKG steps, after every step, twice in a row, three times in a row, and the two in-step points (result computed but not logged; logged but result file not written) before each step. Group key, every machine's share value and the published commitments must equal the twin's; the seed must survive the reopen; the log length at every stop is compared with the Coq bookkeeping model.",
+        "exhaustive": {"quick": True, "thorough": True},
+        "trusted_base": ["the DKG handlers are abstract deterministic functions of (seed, instances, operation) in the model; kyber's determinism given the seeded streams is exercised by the twin runs", "LevelDB durability; ECIES ciphertexts are randomised and therefore not compared"],
+        "assumptions": [],
+    },
 }
